@@ -86,7 +86,7 @@ def monitor_integrity(sc):
                 if (e["h"], o["from"], o["p"]) not in direct:
                     hits.append(dict(what="payload never transmitted directly by its sender", at=e["h"], sender=o["from"], event=i))
             else:
-                if not (d == "ff" + o["p"] and o["from"] == e["from"]):
+                if not (len(d) >= 2 and int(d[:2], 16) >= 128 and d[2:] == o["p"] and o["from"] == e["from"]):
                     hits.append(dict(what="p2p hand-over differs from what was received", at=e["h"], event=i))
                 if o["from"] not in members:
                     hits.append(dict(what="p2p from non-participant handed over", at=e["h"], event=i))
